@@ -42,6 +42,9 @@ THEOREMS = [
     "AiuVerif.C01.barrier_is_pass",
     "AiuVerif.C01.overlap_tid_conserves",
     "AiuVerif.C01.overlap_drop_conserves",
+    "AiuVerif.C01.prep_stage_conserves",
+    "AiuVerif.C01.limit_filter_stage_conserves",
+    "AiuVerif.C01.comm_stage_non_members",
 ]
 RULE = ("random rich scenarios (gen/rich.py: 1..4 ranks, chain all-reduce groups, kernels, host slices as X and B/E, ties, "
         "nesting, staggered partial overlaps up to the 5-extra-lane budget, zero/negative durations, 1/16 us device slices, "
@@ -53,8 +56,9 @@ ASSUMPTIONS = ["-O drop removals and --comm_summarize_seq merges are judged by t
                "(partial overlap on the lane in the stream entering the overlap stage; another part of the same send sequence "
                "exported); --event_limit is exercised with time windows only (skip/count are C17's)",
                "switches outside the claimed domain (-S -s -R --flex_ts_fix -O async/shift/warn, bandwidth counter) are not generated"]
-NOT_YET_PROVED = ["class_conserves per real stage: each stage's membership in its class is observed on real streams, not derived "
-                  "from a per-stage Lean model (C04, C13, C17, C20 give such models for the filter/merge-class stages)",
+NOT_YET_PROVED = ["class_conserves for the stages WITHOUT a Lean model (observed on the real -I streams of every run instead); proved for "
+                  "sort_events, pipeline_barrier, the overlap sub-pipeline (-O tid / -O drop), queueing_counter, normalize_phase1 and "
+                  "communication_event_apply via the models of C08, C03, C04, C13, C17, C20",
                   "opaque_keys_survive (user argument keys): oracle only"]
 LEVEL_TEXT = ("Lean theorem pipeline_conserves: for ANY pipeline of slice-conserving stages, any input and any amount of buffering in "
               "sorts, barriers, clock alignment or bandwidth stages, exported uids ++ (uids removed by filter-class stages) is a "
